@@ -300,3 +300,82 @@ CONTRACTS[(I_, 'GraphAutomorphism')] = {
         'result.cls == formula_class',
     ],
 }
+
+
+# ---- BinaryCliqueFormula ------------------------------------------------------------------------------------------------------------
+# PROVED for every graph, every k >= 0 and both values of symbreak, for an arbitrary assignment a: with bsel(a, g, i) the vertex number
+# (0-based, as the binary mapping counts) spelled by the bits of clique position i,
+#     sat  <=>  the mapping is complete and injective [and non-decreasing when symbreak] and for all positions i1 < i2 and all NON-edges
+#               {j1, j2}, j1 < j2 (1-based vertices): not (i1 -> j1 - 1 and i2 -> j2 - 1) [and, without symbreak, not the crossed placement];
+# k * bitlen(N) variables.  The "- 1" is the 0-based numbering of the binary mapping - the off-by-one of issue #115 is exactly what this
+# postcondition pins down.  The loop runs over product(combinations(.., 2), ((u-1, v-1) for (u, v) in non_edges(G))): verified as the four
+# nested range loops it is equivalent to, the inner pair handed out shifted by -1.
+# ASSUMED: the binary group as the family sees it - allocation (k * bitlen(N) fresh variables, 2**bits >= N), forbid(i, j) is a clause over
+# the group's variables that is false exactly when the bits of i spell j and is refused iff j >= 2**bits (C11 bounded tier); force_* (C04
+# bounded tier for binary mappings); add_clause (C04); graph views (C16).
+CLASSMODELS['BinMapB'] = {'file': V_, 'real': 'BinaryMappingVariables', 'fields': {'gid': 'int', 'n': 'int', 'm': 'int', 'bits': 'int', 'hi': 'int'}}
+CLASSMODELS['FormulaB'] = {'file': F_, 'real': 'CNF', 'fields': {'store': 'mclist', '_numvar': 'int', 'cls': 'int', 'header': 'opaque'}}
+MB = 'created("BinMapB", 0)'
+
+
+def bs(i):
+    return 'bsel(a, {}.gid, {})'.format(MB, i)
+
+
+BROW = ('(implies(not gadj(G.gid, j1, j2), not ({a} == j1 - 1 and {b} == j2 - 1) and implies(not symbreak, not ({a} == j2 - 1 and {b} == j1 - 1))))'
+        ).format(a=bs('i1'), b=bs('i2'))
+
+
+def brow(i1, i2, j1, j2):
+    return BROW.replace('i1', '(' + i1 + ')').replace('i2', '(' + i2 + ')').replace('j1', '(' + j1 + ')').replace('j2', '(' + j2 + ')')
+
+
+def forceb(pred):
+    return {'assumed': 'meaning of force_{0}_mapping = the relational predicate m_{0} (binary mappings: bounded tier of C04)'.format(pred),
+            'params': {'f': 'obj:BinMapB'}, 'ghost_params': {'a': 'asg'}, 'modifies': ['self.store'],
+            'ensures': ['sat(a, self.store) == (sat(a, old(self.store)) and m_{}(a, f.gid))'.format(pred)]}
+
+
+KEEPB = ['F._numvar == k * bitlen(N)', 'k >= 0', 'N >= 0', '{m}.hi == F._numvar'.format(m=MB), '{m}.n == k'.format(m=MB), 'pow2({m}.bits) >= N'.format(m=MB)]
+B1 = 'forall(lambda i1, i2, j1, j2: implies(1 <= i1 and i1 <= _a and i1 < i2 and i2 <= k and 1 <= j1 and j1 < j2 and j2 <= N, {}))'.format(brow('i1', 'i2', 'j1', 'j2'))
+B2 = 'forall(lambda i2, j1, j2: implies(_a + 1 < i2 and i2 <= _a + 1 + _b and 1 <= j1 and j1 < j2 and j2 <= N, {}))'.format(brow('_a + 1', 'i2', 'j1', 'j2'))
+B3 = 'forall(lambda j1, j2: implies(1 <= j1 and j1 <= _c and j1 < j2 and j2 <= N, {}))'.format(brow('_a + 1', '_a + 2 + _b', 'j1', 'j2'))
+B4 = 'forall(lambda j2: implies(_c + 1 < j2 and j2 <= _c + 1 + _it, {}))'.format(brow('_a + 1', '_a + 2 + _b', '_c + 1', 'j2'))
+
+CONTRACTS.update({
+    (F_, 'FormulaB.__init__'): {'assumed': 'formula_class() builds an empty formula of that class', 'params': {},
+                                'modifies': ['self.store', 'self._numvar'], 'ensures': ['self.store == cnil', 'self._numvar == 0']},
+    (F_, 'FormulaB.new_binary_mapping'): {
+        'assumed': 'group allocation (C11): n * bitlen(m) fresh variables, enough bits to spell 0..m-1',
+        'params': {'n': 'int', 'm': 'int', 'label': 'any'}, 'raises': {'ValueError': 'n < 0 or m < 0'},
+        'modifies': ['self._numvar'], 'returns': 'obj:BinMapB',
+        'ensures': ['result.n == n', 'result.m == m', 'result.bits >= 0', 'pow2(result.bits) >= m', 'self._numvar == old(self._numvar) + n * bitlen(m)',
+                    'result.hi == self._numvar']},
+    (F_, 'FormulaB.force_complete_mapping'): forceb('complete'),
+    (F_, 'FormulaB.force_injective_mapping'): forceb('injective'),
+    (F_, 'FormulaB.force_nondecreasing_mapping'): forceb('nondecreasing'),
+    (F_, 'FormulaB.add_clause'): CONTRACTS[(F_, 'FormulaS.add_clause')],
+    (V_, 'BinMapB.forbid'): {
+        'assumed': 'forbid(i, j) (C11 bounded tier): a clause over variables of the group, false exactly when the bits of element i spell j; refused iff j has too many bits',
+        'params': {'i': 'int', 'j': 'int'}, 'ghost_params': {'a': 'asg'}, 'requires': ['1 <= i and i <= self.n', 'j >= 0'],
+        'raises': {'ValueError': 'j >= pow2(self.bits)'}, 'returns': 'iseq',
+        'ensures': ['(count(a, result) >= 1) == (bsel(a, self.gid, i) != j)', 'not haszero(result)', 'maxabs(result) <= self.hi']},
+    (S, 'BinaryCliqueFormula'): {
+        'property': ['C02', 'C08', 'C10'],
+        'params': {'G': 'obj:GraphS', 'k': 'int', 'symbreak': 'bool', 'formula_class': 'class:FormulaB'},
+        'ghost_params': {'a': 'asg'},
+        'raises': {'ValueError': 'k < 0'},
+        'loops': {0: {'nest': [
+            dict(FR, counter='_a', ghost_at_entry={'S0': 'F.store'}, inv=KEEPB + [acc(B1)]),
+            dict(FR, counter='_b', inv=KEEPB + [acc('({} and {})'.format(B1, B2))]),
+            dict(FR, counter='_c', inv=KEEPB + [acc('({} and {} and {})'.format(B1, B2, B3))]),
+            dict(FR, inv=KEEPB + [acc('({} and {} and {} and {})'.format(B1, B2, B3, B4))]),
+        ]}},
+        'ensures': [
+            'sat(a, result.store) == (m_complete(a, {m}.gid) and m_injective(a, {m}.gid) and implies(symbreak, m_nondecreasing(a, {m}.gid)) and '
+            'forall(lambda i1, i2, j1, j2: implies(1 <= i1 and i1 < i2 and i2 <= k and 1 <= j1 and j1 < j2 and j2 <= G.n, {row})))'.format(m=MB, row=BROW),
+            'result._numvar == k * bitlen(G.n)',
+            'result.cls == formula_class',
+        ],
+    },
+})
